@@ -1979,7 +1979,7 @@ class WrapsColumnExpression(ColumnElement[_T]):
         wce = self.wrapped_column_expression
         nal = wce._non_anon_label
         if nal:
-            return self._anon_label(nal + "_")
+            return self._anon_label(nal, add_hash=idx)
         else:
             return self._dedupe_anon_tq_label_idx(idx)
 
